@@ -603,7 +603,8 @@ void World::client_reaction(Client &cl, const Frame &f) {
 	JV msg = JV::obj();
 	msg.set("id", *idv);
 	if (pmode == "error") { JV er = JV::obj(); er.set("code", JV::num(-7)); er.set("message", JV::str("owner says no " + tok)); msg.set("error", er); }
-	else { JV r = JV::obj(); r.set("tok", JV::str(tok)); msg.set("result", r); }
+	else { JV r = JV::obj(); r.set("tok", JV::str(tok)); if (cl.policy.getd("expand", 0) > 0) { JV a = JV::arr(); for (int i = 0; i < (int)cl.policy.getd("expand", 0); i++) a.push(JV::numraw("1e14")); r.set("big", a); } msg.set("result", r); }
+	if ((int)msg.dump().size() + 8 > g_variant.max_message && pmode != "error") { JV r2 = JV::obj(); r2.set("tok", JV::str(tok)); msg.put("result", r2); }   // an owner keeps its answers within the message limit
 	if (cl.policy.getb("forge")) { JV fg = JV::obj(); fg.set("id", JV::str("forged-" + tok)); fg.set("result", JV::str("forged")); schedule(now + delay, EV_REPLY, cl.idx, 0, fg.dump()); probe("forged_reply"); }
 	schedule(now + delay, EV_REPLY, cl.idx, 0, msg.dump());
 	if (cl.policy.getb("dup")) { schedule(now + delay + (uint64_t)cl.policy.getd("dupdelay", 0), EV_REPLY, cl.idx, 0, msg.dump()); probe("duplicate_reply"); }
